@@ -222,7 +222,8 @@ def exec_case(case, cfg):
     classes = [type("Tensor", (), {"__module__": fws[k]["mod"]}) for k in range(len(fws))]
     is_scalar = lambda t: isinstance(t, float | int | bool | np.floating | np.integer | np.bool_)
     stats = {"ops": 0, "lookups": 0, "skipped_ops": 0, "materialisation_invariant_checked": 0}
-    faults = {"F-factory-init": 0, "F-late-import": 0, "F-reg-order-permuted": 0}
+    faults = {"F-factory-init": 0, "F-late-import": 0, "F-reg-order-permuted": 0, "F-lookup-interrupted": 0}
+    interrupt_armed = [False]  # one-shot: the next factory that runs is interrupted (KeyboardInterrupt) before it does anything
     probes = {"lookup_after_memo_then_import": 0, "priority_tiebreak": 0, "ambiguous": 0, "with_stack_resolution": 0, "invalid_backend_selected": 0,
               "lazy_materialised_by_lookup": 0, "scalars_only": 0, "known_class_seen": 0, "lookup_with_pending_imported_lazy_backend": 0, "late_registration": 0}
     sigs = set()
@@ -260,6 +261,10 @@ def exec_case(case, cfg):
                 cls = classes[k]
 
                 def factory(b=b, cls=cls):
+                    if interrupt_armed[0]:
+                        interrupt_armed[0] = False
+                        faults["F-lookup-interrupted"] += 1
+                        raise KeyboardInterrupt("lookup interrupted inside the factory of " + b["name"])
                     if not b["healthy"]:
                         if counting:
                             faults["F-factory-init"] += 1
@@ -434,6 +439,17 @@ def exec_case(case, cfg):
                     stats["skipped_ops"] += 1  # a tensor cannot exist before its module (only after shrinking)
                     continue
                 tensors = mk_tensors(tspec)
+                # fault: the caller is interrupted (Ctrl-C / async abort) while this lookup runs a lazily registered factory, then repeats the
+                # lookup. Main registry only; chosen from the op's content so that shrinking other ops away does not move it. An interrupted
+                # lookup must leave no trace: the repeat below is judged exactly like a lookup that was never interrupted.
+                if pending_imported(reg) and rng.derive(case.get("perm_seed", 0), "interrupt", json.dumps(op, sort_keys=True)) % 100 < 25:
+                    interrupt_armed[0] = True
+                    try:
+                        do_lookup(reg, arg, tensors, held)
+                    except KeyboardInterrupt:
+                        pass
+                    finally:
+                        interrupt_armed[0] = False
                 stack_names = list(model.stack)
                 nb_before = len(reg.state.backends)
                 # the documented trigger: a lookup that finds no accepting backend for some argument (or an unknown name) notices new imports
